@@ -112,7 +112,10 @@ MonPanic(m) == [Flag(m, {<<"C20", "panic">>, <<"C07", "panic">>}) EXCEPT !.mode 
 (* ---- I/O counters (C14): a separate little monitor ---------------------- *)
 \* kept apart from `m` so that exhaustive model checking of the framing rules
 \* does not have to carry four unbounded counters
-CntInit == [okPk |-> 0, okBy |-> 0, erPk |-> 0, erBy |-> 0, viol |-> {}]
+CntInit == [okPk |-> 0, okBy |-> 0, erPk |-> 0, erBy |-> 0, okRet |-> 0, erRet |-> 0, unbuf |-> FALSE, viol |-> {}]
+\* an emit of an UNBUFFERED sink returned: "these are the counts ... of the emits that returned Ok and Err respectively"
+CntRet(c, unbuffered, isEmit, ok) ==
+  IF unbuffered /\ isEmit THEN [c EXCEPT !.unbuf = TRUE, !.okRet = IF ok THEN @ + 1 ELSE @, !.erRet = IF ok THEN @ ELSE @ + 1] ELSE c
 CntAtt(c, d, ok) == IF ok THEN [c EXCEPT !.okPk = @ + 1, !.okBy = @ + BLen(d)]
                           ELSE [c EXCEPT !.erPk = @ + 1, !.erBy = @ + BLen(d)]
 \* stats() read at a quiescent moment
@@ -120,7 +123,9 @@ CntStats(c, bs, ps, bd, pd) ==
   [c EXCEPT !.viol = @ \cup
      (IF ps # c.okPk \/ pd # c.erPk THEN {<<"C14", "packet-counters-do-not-add-up">>} ELSE {})
      \cup (IF bs # c.okBy THEN {<<"C14", "bytes-sent-wrong">>} ELSE {})
-     \cup (IF bd # c.erBy THEN {<<"C14", "bytes-dropped-wrong">>} ELSE {})]
+     \cup (IF bd # c.erBy THEN {<<"C14", "bytes-dropped-wrong">>} ELSE {})
+     \cup (IF c.unbuf /\ (ps # c.okRet \/ pd # c.erRet)
+           THEN {<<"C14", "packet-counters-differ-from-the-ok-and-err-results-of-the-emits">>} ELSE {})]
 
 ViolProps(m) == {v[1] : v \in m.viol}
 =============================================================================
